@@ -29,6 +29,15 @@ end
 
 visit(_G, "", 0, "_G")
 visit(getmetatable(""), "@stringmt", 0, "@stringmt")
+-- values a script obtains by CALLING what it holds: a chunk compiled by `load` without an explicit environment
+-- runs in the interpreter's global table, which need not be the table the script itself runs in; a coroutine
+-- body and a chunk compiled with an explicit environment see what the script gives them (nothing new)
+do
+  local ok, env = pcall(function() return load("return _ENV")() end)
+  if ok and type(env) == "table" then visit(env, "@loadenv", 0, "@loadenv") end
+  local ok2, g2 = pcall(function() return load("return _G")() end)
+  if ok2 and type(g2) == "table" then visit(g2, "@loadenv", 0, "@loadenv") end
+end
 
 -- exercise: does the capability actually work?
 local works = {}
@@ -57,6 +66,11 @@ try("package.cpath_searcher", function() return package ~= nil and package.searc
 try("debug.getregistry", function() return debug ~= nil and debug.getregistry ~= nil and debug.getregistry() ~= nil end)
 try("debug.getinfo", function() return debug ~= nil and debug.getinfo ~= nil end)
 try("load", function() return load ~= nil and load("return 1")() == 1 end)
+try("load-loadfile", function() return load("return loadfile ~= nil and loadfile(...) ~= nil")(probe_file) end)
+try("load-dofile", function() return load("return dofile ~= nil and (pcall(dofile, ...))")(probe_file) end)
+try("load-io", function() return load("return io ~= nil and io.open ~= nil")() end)
+try("load-os", function() return load("return os ~= nil and os.getenv ~= nil")() end)
+try("load-require", function() return load("return require ~= nil")() end)
 try("string.dump", function() return string.dump ~= nil and #string.dump(function() end) > 0 end)
 try("bytecode", function() return load ~= nil and string.dump ~= nil and load(string.dump(function() return 7 end), "b", "b") ~= nil end)
 try("collectgarbage", function() return collectgarbage ~= nil and collectgarbage("count") > 0 end)
